@@ -79,7 +79,11 @@ CLAIMS = {
     "C20": dict(
         technique="Lean 4 theorems on a step machine for file writes (every fault index, any number of targets) and on the CLI decision function + exhaustive fault injection / argv differential run",
         text=(
-            "Kernel-checked: FsSync.runTargets_all_or_nothing (for ANY list of targets with fresh temp paths and ANY fault "
+            "Kernel-checked, buffered I/O: FsBuffered.atomicB_all_or_nothing - `write` only fills a buffer, the bytes reach the "
+            "disk when the temporary file is flushed and closed, and whichever step fails (the flush after any number of "
+            "bytes included) the target is byte-identical to before or holds the complete new contents and no temporary file "
+            "is left; moveBeforeFlush_not_all_or_nothing: with the move inside the with-block a failing flush cuts the target "
+            "off (tied by the `fs_buffered` operation: the real write whose error surfaces at close). " "Kernel-checked: FsSync.runTargets_all_or_nothing (for ANY list of targets with fresh temp paths and ANY fault "
             "position (target k, step i) every target file is afterwards byte-identical to before or completely rewritten, "
             "no temp file is left; induction over the target list), atomic_all_or_nothing, runTargets_frame (no other path "
             "is touched), Cli.sync_never_internal / sync_reject_untouched / sync_accept_iff / sync_all_or_nothing for the "
